@@ -179,7 +179,9 @@ def step (s : State) : Ev → Except String State
     else .ok { s with cur := s.cur - 1, rph := upd s.rph g .idle, nDone := s.nDone - 1 }
   | .lockL g =>
     if s.lockL.isSome then .error "w.lifecycle locked twice"
-    else .ok { s with lockL := some g }
+    else
+      -- a barrier result belongs to the critical section in which it was computed
+      .ok { s with lockL := some g, bst := upd s.bst g none, checked := upd s.checked g false }
   | .unlockL g =>
     if s.lockL != some g then .error "w.lifecycle unlocked by a goroutine that does not hold it"
     else .ok { s with lockL := none }
@@ -205,7 +207,7 @@ def step (s : State) : Ev → Except String State
     if v != s.cur then .error s!"barrier: loaded cur={v}, model has {s.cur}"
     else match s.bst g with
       | some b =>
-        if isQuietStatus b && v == 0 && s.lockL == some g then .ok { s with checked := upd s.checked g true, bst := upd s.bst g none }
+        if isQuietStatus b && b == s.ws && v == 0 && s.lockL == some g then .ok { s with checked := upd s.checked g true, bst := upd s.bst g none }
         else .ok { s with bst := upd s.bst g none }
       | none => .error "barrier: cur loaded before status"
   | .ldStatusAny _ v => if v != s.ws then .error s!"loaded status={v}, model has {s.ws}" else .ok s
